@@ -56,12 +56,12 @@ def text_values():
 
 
 # more differently-shaped strings than any cap on the number of categories
-# or expressions (MAX_CATEGORIES is 20): each needs its own expression
-VARIED_SHAPES = ['ab', '12', 'ab-12', '12-ab', 'ab.12', 'ab:12', 'ab/12',
-                 'ab@12', 'ab 12', '12.ab', '12:ab', '12/ab', '-ab', '.ab',
-                 ':ab', '/ab', '@ab', 'ab-', 'ab.', 'ab:', 'ab/', 'ab@',
-                 '12-', '12.', '-12', '.12', 'AB_12', '(ab)', '[12]', 'a=1',
-                 'a+b', '#12']
+# or expressions (MAX_CATEGORIES is 20): every sequence of up to four runs
+# of letters / white space / punctuation, each needing its own expression
+VARIED_SHAPES = [''.join({'C': 'ab', ' ': ' ', '.': '-'}[c] for c in t)
+                 for n_ in (1, 2, 3, 4)
+                 for t in __import__('itertools').product('C .', repeat=n_)
+                 if all(t[i] != t[i + 1] for i in range(n_ - 1))]
 
 
 @st.composite
@@ -84,7 +84,7 @@ def table(draw):
                                      'onevalue']))
         if kind == 'ostr' and n == 28 and mode != 'allnull':
             k = draw(st.integers(21, 28))
-            shapes = draw(st.permutations(VARIED_SHAPES))[:k]
+            shapes = list(draw(st.permutations(VARIED_SHAPES)))[:k]
             cells = [shapes[i % k] for i in range(n)]
         elif mode == 'allnull':
             cells = [None] * n
